@@ -254,6 +254,17 @@ def collect_iter(m, J, s, next_name, run, limit=40):
     return done
 
 
+def pieces_of(mdl, text):
+    out, n = [], 0
+    for p_ in text:
+        bs = bytearray()
+        for ch in p_.encode('utf-8'):
+            if ch == ord('?'): bs.append(mval(mdl, z3.BitVec('p%d' % n, 8))); n += 1
+            else: bs.append(ch)
+        out.append(bs.decode('utf-8'))
+    return out
+
+
 def with_indices_job(jid, text, kind='str', flavour='mir'):
     """WithIndices::substring(i, j) with SYMBOLIC char indices (including huge values) on &str / real Rope lines over
     multi-byte text: the unchecked byte slicing must stay on char boundaries (C19) and return the char-wise substring."""
@@ -274,7 +285,7 @@ def with_indices_job(jid, text, kind='str', flavour='mir'):
     # every index in range, one beyond, and anything huge (usize::MAX is what callers pass for "to the end")
     st.pc.append(z3.Or(z3.ULE(i, nchar + 1), i == z3.BitVecVal(2**64 - 1, 64)))
     st.pc.append(z3.Or(z3.ULE(j, nchar + 1), j == z3.BitVecVal(2**64 - 1, 64)))
-    mf = lambda mdl: {'family': 'with_indices', 'text': bytes(mval(mdl, b) for b in flat).decode('utf-8'), 'pieces': text if kind != 'str' else None, 'i': mval(mdl, i), 'j': mval(mdl, j)}
+    mf = lambda mdl: {'family': 'with_indices', 'text': bytes(mval(mdl, b) for b in flat).decode('utf-8'), 'pieces': pieces_of(mdl, text) if kind != 'str' else None, 'i': mval(mdl, i), 'j': mval(mdl, j)}
     for kind_, s, v in api.call(m, st, "WithIndices::<'_, %s>::substring" % sty, [st.extra['wi'], IntV(i, 'usize'), IntV(j, 'usize')]):
         J.paths += 1
         if kind_ != 'ret':
